@@ -41,6 +41,13 @@ def engine(tier):
         for ops in fam(rng, True)[:3 if quick else 8]:
             scs.append({"id": len(scs) + 1, "ops": ops})
     scs.append({"id": len(scs) + 1, "ops": eng_query.scenario(rng, True, 8)})
+    # the sketch track's candidate lists (top terms, scores) and tied lexical scores: both must not depend on the execution
+    for _ in range(2):
+        docs = eng_query.make_corpus(rng, 24, long_frac=0.2)
+        qs = [{"op": "sketch", "toks": ["w%d" % w]} for w in range(8)] + [{"op": "sketch", "toks": ["w1", "w2"]}]
+        scs.append({"id": len(scs) + 1, "ops": [{"op": "create"}] + docs + [{"op": "commit"}] + qs + [{"op": "close"}, {"op": "open"}] + qs + [{"op": "close"}]})
+    for _ in range(3):
+        scs.append({"id": len(scs) + 1, "ops": eng_query.pagination_ties(rng, True, 14, 4)})
     wd = workdir("det")
     jobs = 8
     a = run_once(scs, wd, "a", jobs)
